@@ -6,6 +6,7 @@
 -/
 import Qfx.Lemmas.CodecRound
 import Qfx.Lemmas.CodecDictGroup
+import Qfx.Lemmas.CodecGroupNested
 open Qfx Qfx.Spec
 
 /-- `Write` starts with `<tag>=<number of entries>` -/
@@ -292,6 +293,44 @@ theorem C13_dict_flat_group_last (d : Dicts) (mt : Bytes) (G d0 : Tag) (ts : Lis
   rw [e] at this
   exact this
 
+/-- NESTED GROUPS, ANY DEPTH (compositional).  "… including nested groups".  Let a group's template be `d :: tmplr` with an element
+    delimiter `d`; let each entry on the wire be the delimiter field followed by member blocks (`Block`), each either an element
+    field of the template or the wire form of a nested group of the template that itself reads back with its own template
+    whenever it is followed by a tag of `S` (`BlockOK`, `NestedOK`); let `S` contain the template's tags and the tag of whatever
+    follows the group, and let that follower not be a template tag.  Then `Read` of `<G>=<n>`, the `n` entries, `rest` returns
+    exactly `n` entries and `rest`, untouched; entry `i` lists the i-th entry's member tags in wire order and maps each (distinct)
+    tag to a range starting with that member's fields — for a nested group its count field and entries, i.e. something `GetGroup`
+    with the nested template reads back in turn.  Together with `C13_nested_group_is_block` (such a group is a well-formed
+    block of an enclosing group) and the base case `C13_nested_flat_is_block` this gives every nesting depth by iteration. -/
+theorem C13_read_nested (S : Tag → Prop) (G d : Tag) (tmplr : List Item) (rest : List TagValue)
+    (hS : ∀ t, t ∈ tmplTags (.elem d :: tmplr) → S t) (hSr : ∀ f r, rest = f :: r → S f.tag)
+    (hrest : ∀ f r, rest = f :: r → findItem (.elem d :: tmplr) f.tag = none)
+    (es : List (List Block)) (hes : ∀ e ∈ es, EntryOKB S d tmplr e) (hn : es.length < 9223372036854775808) :
+    ∃ gs, getGroup (.elem d :: tmplr) (countTV G es.length :: (es.flatMap serBlocks ++ rest)) = .ok gs ∧
+      gs.length = es.length ∧
+      ∀ (i : Nat) (e : List Block), es[i]? = some e → ∃ g : GEntry, gs[i]? = some g ∧ g.tags = e.map (·.tag) ∧
+        ((e.map (·.tag)).Nodup → ∀ b ∈ e, ∃ tail, alFind g.lookup b.tag = some (b.tvs ++ tail)) := by
+  have hfuel : readFuel (countTV G es.length :: (es.flatMap serBlocks ++ rest)) ≥ 2 * (1 + tvCount es) + 1 := by
+    have := flatMap_serBlocks_length es
+    simp [readFuel, this]; omega
+  refine ⟨readSpecB rest es, ?_, readSpecB_length rest es, readSpecB_entry S d tmplr rest es hes⟩
+  simp only [getGroup, readGroup_blocks S G d tmplr rest hS hSr hrest es hes hn _ hfuel]
+
+/-- a group as in `C13_read_nested` is itself a well-formed nested block of an enclosing group: it reads back (and is skipped)
+    whenever what follows carries a tag of `S'` that is allowed inside (`S`) and is not one of its template tags -/
+theorem C13_nested_group_is_block (S S' : Tag → Prop) (G d : Tag) (tmplr : List Item)
+    (hS : ∀ t, t ∈ tmplTags (.elem d :: tmplr) → S t)
+    (hS' : ∀ t, S' t → S t ∧ findItem (.elem d :: tmplr) t = none)
+    (es : List (List Block)) (hes : ∀ e ∈ es, EntryOKB S d tmplr e) (hn : es.length < 9223372036854775808) :
+    NestedOK S' (.elem d :: tmplr) (countTV G es.length :: es.flatMap serBlocks) :=
+  nestedOK_of_entries S S' G d tmplr hS hS' es hes hn
+
+/-- base case: a nested group whose own template has no further nesting -/
+theorem C13_nested_flat_is_block (S' : Tag → Prop) (G d : Tag) (ts : List Tag) (hS' : ∀ t, S' t → t ∉ d :: ts)
+    (es : List (List (Tag × Bytes))) (hes : ∀ e ∈ es, EntryOK d (d :: ts) e) (hn : es.length < 9223372036854775808) :
+    NestedOK S' (flatTmpl (d :: ts)) (countTV G es.length :: es.flatMap serEntry) :=
+  nestedOK_flat S' G d ts hS' es hes hn
+
 /-! ## not (yet) theorems -/
 
 /-- round trip without dictionary, any nesting depth: what `getgrp` must observe after build + parse -/
@@ -316,11 +355,17 @@ example :
     (getGroup [.elem 448, .elem 447]
       [⟨453, [50], []⟩, ⟨448, [97], []⟩, ⟨447, [68], []⟩, ⟨448, [98], []⟩, ⟨58, [120], []⟩]).isOk = true := by decide
 
+/-! non-vacuity: a nested group (453 with members 448 and the nested group 802 of 523) followed by field 58 -/
+example :
+    (getGroup [.elem 448, .group 802 [.elem 523]]
+      [⟨453, [49], []⟩, ⟨448, [97], []⟩, ⟨802, [50], []⟩, ⟨523, [120], []⟩, ⟨523, [121], []⟩, ⟨58, [122], []⟩]).isOk = true := by decide
+
 /- Clause checklist (properties.jsonl C13):
    "same number of entries"                                  C13_read_count, C13_write_starts_with_count, C13_read_zero
    with the dictionary that defines the group (no nested groups) C13_dict_flat_group_mid, C13_dict_flat_group_last (parseGroup + GetGroup through the dictionary template)
    the whole trip build → parse (no dictionary) → GetGroup       C13_roundtrip_nodict_flat (templates without nesting; any message around the group)
-   "same fields and values in the same order, nested groups" C13_roundtrip_flat (Write then Read, templates without nesting, any setter calls),
+   "including nested groups" (Read, any depth, compositional)    C13_read_nested, C13_nested_group_is_block, C13_nested_flat_is_block
+   "same fields and values in the same order"                 C13_roundtrip_flat (Write then Read, templates without nesting, any setter calls),
                                                              C13_read_inverts_wire_flat (whole Read, templates without nesting);
                                                              C13_read_member, C13_read_delimiter (one step each, any template); nested: C13_roundtrip_nodict_full
    "fields following the group are still found"              C13_read_stops_at_follower; with dictionary C13_pop_returns_shorter_stack; whole: …_dict_full
